@@ -69,6 +69,7 @@ class Ctx:
         self.counters = {}
         self.violations = []
         self.known_hits = {}
+        self.known_full = {}   # entry signature -> {full emitted signature: count} (shows how much a '*' entry really absorbed)
         self.assumptions = []
         self.rule = ""
         self.min_nontrivial = 2
@@ -149,6 +150,9 @@ class Ctx:
         e = self._match_known(signature)
         if e is not None:
             self.known_hits.setdefault(e["signature"], [e, 0])[1] += 1
+            full = self.known_full.setdefault(e["signature"], {})
+            if signature in full or len(full) < 40:
+                full[signature] = full.get(signature, 0) + 1
             return
         detail = _jsonable(detail)
         idx = len(self.violations)
@@ -183,6 +187,7 @@ class Ctx:
         for sig, (e, n) in self.known_hits.items():
             known_lines.append("KNOWN-FINDING: property=%s %s (observed %d times; signature=%s)" % (self.pid, e.get("what", ""), n, sig))
         cov["known_findings_observed"] = {sig: n for sig, (e, n) in self.known_hits.items()}
+        cov["known_findings_full_signatures"] = self.known_full
         if not self.violations and self.inconclusive_reason is None:
             if nd < self.min_nontrivial:
                 self.inconclusive_reason = "only %d distinct non-trivial cases (minimum %d)" % (nd, self.min_nontrivial)
